@@ -46,7 +46,7 @@ Failing(o) ==
   \o (IF ~Exact(o) THEN <<"literal_not_exact">> ELSE <<>>)
   \o (IF o.must \/ o.vars[1].out.err = ""
       THEN LET s == Spec1OK(o) IN
-           (IF ~s[1] THEN <<"value">> ELSE <<>>) \o (IF ~s[2] THEN <<"events">> ELSE <<>>)
+           (IF ~s[1] /\ ~("novalue" \in DOMAIN o /\ o.novalue) THEN <<"value">> ELSE <<>>) \o (IF ~s[2] THEN <<"events">> ELSE <<>>)
               \o (IF ~s[3] THEN <<"arguments">> ELSE <<>>)
       ELSE <<>>)
 
